@@ -118,6 +118,7 @@ fn exec(c: &NetConcCase, env: &Env) -> Outcome {
             frac_pm: p.frac_pm as u32,
             m: p.m as u32,
             timeout_us: p.timeout_us as u64,
+            fail_errno: 0,
         })
         .collect();
     shim::plan_install(plan);
